@@ -17,7 +17,7 @@ e2e                scripted puppet tests write seeded streams; the event tap's l
 Oracles are plain Python and never look at the model."""
 import json, os, re, signal, sys, time, concurrent.futures
 import xml.etree.ElementTree as ET
-import vlib, e2e
+import vlib, e2e, gen_tie
 from props.C13 import py_xxh64
 
 sys.path.insert(0, e2e.E2E)
@@ -1160,6 +1160,9 @@ def run(tier, seed):
     thorough = tier == "thorough"
     gate = vlib.coq_gate(PROP)
     vlib.gate_or_violation(chk, gate)
+    # glue code (DESIGN 11.7, third round): whose captured output the <testcase> and its rerun elements carry, read from
+    # the TestFinished arm of MetadataJunit::write_event
+    gen_tie.gate(chk, ['junit_test_case'], gate, family="glue")
     checker = "make -C coq Properties/C16.vo && coqc gen/assump_C16.v (Print Assumptions)"
     binary, err = vlib.build_harness()
     if binary is None:
